@@ -316,6 +316,10 @@ static void fft_stream(Out& out, Rng& rng, int thorough, int layout) {
           run_case(out, rng, layout, inv, flav, m, cls % NCLASS, true);
           cls++;
         }
+    // subnormal data through the recursive path (m > 2048): flush-to-zero style shortcuts show here, bit for bit
+    if (m == 4096)
+      for (int inv = 0; inv < 2; inv++)
+        for (int flav = 0; flav < 2; flav++) run_case(out, rng, layout, inv, flav, m, CL_TINY, true);
     if (m >= 16384) drop_precomps();
   }
   drop_precomps();
